@@ -236,3 +236,46 @@ def sites(fn, summ, destr=None):
     flow = Flow(fn, [(guards.EMPTY, frozenset())], on_stmt, on_edge, max_states=6000)
     flow.run()
     return out
+
+
+LIBC_NAME_ARGS = {"sem_open": (0,), "sem_unlink": (0,), "shm_open": (0,), "shm_unlink": (0,), "opendir": (0,), "fopen": (0,), "open": (0,), "dlopen": ()}
+
+
+def unchecked_members(fn, fallible):
+    """Members of a local object that were assigned the result of a call that can fail by returning NULL (an allocating library
+    function) and reach - in the same function, static helpers inlined - a libc routine that dereferences its argument, on a path
+    that never tested them.  -> [(call node, member text, callee, line of the store, witness lines)]"""
+    out = []
+    seen = set()
+    deref = dict(LIBC_DEREF)
+    deref.update(LIBC_NAME_ARGS)
+
+    def on_stmt(st, b, i, stmt):
+        facts, maybe = st
+        for n in walk(stmt):
+            if n["k"] == "call" and n.get("callee") in deref:
+                for k in deref[n["callee"]]:
+                    if k < len(n["args"]):
+                        a = strip_casts(n["args"][k])
+                        if a is not None and a["k"] == "member":
+                            key_ = guards.key(a)
+                            src = dict(maybe).get(key_)
+                            if src is not None and not guards.known_nonzero(a, facts) and (id(n), key_) not in seen:
+                                seen.add((id(n), key_))
+                                out.append((n, key_, n["callee"], src, flow.witness_lines(*flow.cur)))
+            if n["k"] == "asg" and n.get("op") == "=":
+                l = strip_casts(n["l"])
+                r = strip_casts(n["r"])
+                if l is not None and l["k"] == "member" and l.get("arrow"):
+                    key_ = guards.key(l)
+                    maybe = frozenset(x for x in maybe if x[0] != key_)
+                    if r is not None and r["k"] == "call" and r.get("callee") in fallible:
+                        maybe = maybe | {(key_, (n.get("loc") or [0])[0])}
+        return [(guards.transfer(facts, stmt), maybe)]
+
+    def on_edge(st, b, to, on):
+        f2 = guards.edge_assume(st[0], b, on)
+        return None if f2 is None else (f2, st[1])
+    flow = Flow(fn, [(guards.EMPTY, frozenset())], on_stmt, on_edge, max_states=20000)
+    flow.run()
+    return out
